@@ -239,7 +239,10 @@ pub fn run_ops(bytes: &[u8], sched: &[usize], visible0: usize, opts: Opts, tbits
             }
             Op::Row | Op::IRow | Op::ReadRow => {
                 // which row of which frame this will be (needed to place it)
+                // rows of absurd declared width (hundreds of MB each) are exercised by C02 / C06 under limits, not by every op sequence here
+                let too_wide = guarded(|| rd.output_line_size(rd.info().width)).map_or(false, |n| n > OPS_MAX_BUF * 4);
                 let r: Result<Result<Option<(Option<png::Adam7Info>, Vec<u8>)>, String>, String> = match op {
+                    _ if too_wide => Ok(Err("skip:row-buffer-too-big".to_string())),
                     Op::Row => guarded(|| rd.next_row().map(|o| o.map(|r| (None, r.data().to_vec()))).map_err(|e| res_err(&e))),
                     Op::IRow => guarded(|| {
                         rd.next_interlaced_row()
